@@ -398,8 +398,10 @@ class World(SessionWorld):
         S = self.session
         from autobahn.wamp import types
         from autobahn.wamp.exception import TransportLost
-        what = ch.pick(("leave", "disconnect", "call", "publish", "subscribe", "register"), "app", (3, 1.5, 3, 1.5, 1.5, 1.5))
+        what = ch.pick(("leave", "disconnect", "call", "publish", "subscribe", "register", "join"), "app", (3, 1.5, 3, 1.5, 1.5, 1.5, 0.8))
         phase = "joined" if S._session_id is not None else ("ended" if self.ended else "pre")
+        if what == "join" and phase != "joined":
+            what = "call"
         if phase == "pre" and what not in ("leave", "disconnect"):
             # an application issues requests from onJoin on, not before the session exists
             what = "leave" if ch.flag("pre-leave") else "disconnect"
@@ -409,6 +411,11 @@ class World(SessionWorld):
                 self.call(S.leave)
             elif what == "disconnect":
                 self.call(S.disconnect)
+            elif what == "join":
+                # a join() too many (or too early: the session is still there while its closing handshake runs) is
+                # refused - and changes nothing
+                self.run.probe("join-while-joined")
+                self.call(S.join, "realm1")
             else:
                 if what == "call":
                     f = self.call(S.call, "com.x.proc%d" % self.ops_left, 1)
